@@ -104,6 +104,11 @@ PROPS = {
         "rule": "1..3 processes per definitions, each built by 0..12 AddActivity calls over all ten activity types with and without preset ids, AutoLayout with the documented defaults or a configuration from the grid origins {0, 96, -50, 1e6} x gaps {0, 50, 100, 120, 180, 300}; the builders read the simulator's clock (ids are drawn from a generator seeded with time.Now() at every call: the clock stands still or advances 1..3 simulated ms between calls); the builder output or its re-parsed serialisation then runs in the engine under a tape-driven goroutine schedule and answer plan and the history is checked against the token game of the chain that was asked for (each activity requested once, in insertion order, completion); before the run the output is checked for unique ids, referential integrity of every sequence flow, start/end degree, one shape per node and one edge per flow with finite coordinates, edges on their shapes, no overlap when the gaps are at least the node sizes, and survival of the XML round trip; distinct = schedule hash; non-trivial = at least one activity and a context switch",
         "oracle": "token game of the requested chain over the recorded history + structural and geometric checks of the builder output",
     },
+    "C16": {
+        "level": "exploration", "quick_s": 30, "thorough_s": 600, "thorough_seeds": 4,
+        "rule": "1..3 instances of one process (service task writing results and data outputs -> service task reading them through typed properties, headers with $references and data inputs) run at the same time in one simulation, each driven by its own client goroutine; instance variables, task results and data outputs are drawn from 24 kinds of Go values (every integer width signed and unsigned with boundary values, float32/64, unicode / empty / quoted strings, booleans, slices, arrays, nested maps, structs, pointers, nil, typed nil pointers, deep nesting), the same kinds but different contents per instance; properties are declared with matching and with non-matching item types, by name and by references to present and absent paths; tape-driven interleaving of all instances' goroutines; oracle: what instance i reads (Locator().CloneVariables() after start and at the end, TaskTrace.GetProperties/GetDataObjects/GetHeaders of the next task) is the canonical form of what instance i wrote, never another instance's value, and no simulated goroutine panics; distinct = schedule hash; non-trivial = a context switch",
+        "oracle": "canonical-form reference per instance + panic capture in every simulated goroutine",
+    },
     "C17": {
         "level": "exploration", "quick_s": 60, "thorough_s": 1200, "thorough_seeds": 4, "race": True, "race_clause": "C17/data-race",
         "rule": "scenarios of the C01, C03, C04, C06, C08, C10 and C11 families in the race build, with additional client goroutines: subscribers that join, read a few traces and leave again and again, readers of Locator().CloneVariables/CloneItems/GetVariable woken on every trace, every Do call from its own goroutine, extra WaitUntilComplete callers; the race detector runs inside the simulation with the scheduler hand-off hidden (RaceDisable brackets), reports count if the innermost frame of one access lies in a non-test file of the module; panics in any simulated goroutine are captured; the family's own oracle must still accept the outcome; distinct = schedule hash; non-trivial = a context switch",
